@@ -363,10 +363,6 @@ Qed.
 Definition keyspec : Type := (bytes * bool)%type.          (* (secret, compressed) *)
 Definition row : Type := (keyspec * option N)%type.        (* a listed key and the hash type it has signed with *)
 
-Ltac clr := repeat match goal with
-  | H : forall _ _ _, _ _ _ _ = true |- _ => clear H
-  end.
-
 Section Rows.
 Variable hash160 : bytes -> bytes.
 Variable verifies : bytes -> bytes -> bytes -> bool.
@@ -398,6 +394,19 @@ Definition count (rows : list row) : nat := length (dentries rows).
 
 Definition ht_ok (t : N) : Prop := t < 256 /\ sighash wit t sc <> None.
 Definition rows_ok (rows : list row) : Prop := forall k t, In (k, Some t) rows -> ht_ok t.
+
+(* drop the section hypotheses before arithmetic so that `lia` does not record them as dependencies *)
+Ltac clr := repeat match goal with
+  | H : ?T |- _ => match T with
+                   | forall _, _ => clear H
+                   | ht_ok _ => clear H
+                   | nat => clear H
+                   | N => clear H
+                   | list _ => clear H
+                   | bool => clear H
+                   | lookup => clear H
+                   end
+  end.
 
 Hypothesis Hsv : forall se c d, verifies (pub_of se c) d (sign se d) = true.
 Hypothesis Hparse : forall se d t, parse_sig_ok (sign se d ++ [t]) = true.
@@ -679,7 +688,7 @@ Proof using Type.
 Qed.
 
 Lemma real_sigs_length rows : length (real_sigs rows) = count rows.
-Proof using Type. unfold real_sigs, count. apply map_length. Qed.
+Proof using Type. clr. unfold real_sigs, count. apply map_length. Qed.
 
 Lemma signing_solver_from blobs rows : ks = map fst rows -> (count rows <= m)%nat ->
   find_sigs verifies sighash wit sc m (rev (map pub ks)) blobs 0 = (dentries rows, solved_keys rows) ->
@@ -754,7 +763,7 @@ Proof using Type.
 Qed.
 
 Lemma sig_items_length rows : (count rows <= m)%nat -> length (sig_items rows) = m.
-Proof using Type. intros H. unfold sig_items. rewrite app_length, repeat_length, real_sigs_length. lia. Qed.
+Proof using Type. clr. intros H. unfold sig_items. rewrite app_length, repeat_length, real_sigs_length. lia. Qed.
 
 Lemma eval_multisig_state rows clean :
   ks = map fst rows -> rows_ok rows -> rows_enc_ok rows -> (count rows <= m)%nat ->
@@ -905,5 +914,82 @@ Proof.
   destruct (sha256 x) as [|b [|b2 r]] eqn:E; [discriminate|discriminate|].
   rewrite <- E in *. unfold lenN. rewrite H. cbn [N.of_nat Pos.of_succ_nat Pos.succ N.leb N.compare Pos.compare Pos.compare_cont].
   cbn [app length]. rewrite H. reflexivity.
+Qed.
+
+Lemma parse_pushes_nil : parse_pushes [] = Some ([], true).
+Proof. reflexivity. Qed.
+
+Lemma items_sizes kd m ks rows : (m <= 20)%nat -> lenN (ms_of m ks) <= 520 ->
+  (count sign sighash (kwit kd) (ms_of m ks) rows <= m)%nat ->
+  lenN (items kd m ks rows) <= 21 /\
+  lenN (pushes (items kd m ks rows)) <= 1600 /\ lenN (pushes (items kd m ks rows ++ [ms_of m ks])) <= 2200.
+Proof.
+  intros Hm Hms Hc.
+  assert (H1 : lenN (items kd m ks rows) <= 21) by (unfold lenN; rewrite items_length by exact Hc; lia).
+  pose proof (lenN_pushes 73 _ ltac:(lia) (items_small kd m ks rows)) as H2.
+  split; [exact H1|]. split; [lia|].
+  rewrite pushes_app, lenN_app.
+  pose proof (lenN_pushes 520 [ms_of m ks] ltac:(lia) ltac:(repeat constructor; exact Hms)) as H3.
+  change (lenN [ms_of m ks]) with 1 in H3. lia.
+Qed.
+
+Lemma eval_render fl kd m ks rows :
+  ms_ok kd m ks -> ks = map fst rows ->
+  rows_ok sighash (kwit kd) (ms_of m ks) rows -> rows_enc_ok sign sighash (kwit kd) (ms_of m ks) fl rows ->
+  (count sign sighash (kwit kd) (ms_of m ks) rows <= m)%nat ->
+  (forall k, In k ks -> pub_enc_ok fl (kwit kd) (pub pub_of k) = true) ->
+  eval_input hash160 sha256 verifies sighash fl (pz_ms kd m ks) (fst (render kd m ks rows)) (snd (render kd m ks rows))
+  = (count sign sighash (kwit kd) (ms_of m ks) rows =? m)%nat.
+Proof.
+  intros [Hkd Hm Hn H520 H10k Hex Hph] Hks Hok Henc Hc Hpub.
+  assert (HE : forall clean, eval_multisig verifies sighash fl (kwit kd) clean (ms_of m ks) m (keys_of ks) (items kd m ks rows)
+               = (count sign sighash (kwit kd) (ms_of m ks) rows =? m)%nat).
+  { intros clean. unfold items. eapply (eval_multisig_state) with (hash160 := hash160) (db := []); eauto.
+    intros ? ? ? ? H; discriminate H. }
+  pose proof (items_small kd m ks rows) as Hsm.
+  assert (Hsm520 : all_le_520 (items kd m ks rows) = true)
+    by (apply all_le_520_forall; eapply Forall_le_weaken; [|exact Hsm]; lia).
+  assert (Hm20 : (m <= 20)%nat) by lia.
+  unfold eval_input.
+  destruct Hkd as [ -> | [ -> | [ -> | -> ] ] ]; cbn [render fst snd pz_ms pz_kind pz_m pz_keys kwit] in *.
+  - (* bare *)
+    assert (H1 : lenN (items K_MS m ks rows) <= 21) by (unfold lenN; rewrite items_length by exact Hc; lia).
+    pose proof (lenN_pushes 73 _ ltac:(lia) Hsm) as H2.
+    replace (10000 <? lenN (pushes (items K_MS m ks rows))) with false by lia.
+    rewrite parse_pushes_pushes by (eapply Forall_le_weaken; [|exact Hsm]; lia).
+    rewrite Hsm520. replace (1000 <? lenN (items K_MS m ks rows)) with false by lia.
+    rewrite andb_false_r. cbn [negb orb is_nil andb]. apply HE.
+  - (* P2SH *)
+    specialize (H520 eq_refl).
+    destruct (items_sizes K_P2SH_MS m ks rows Hm20 H520 Hc) as (H1 & H2 & H3).
+    replace (10000 <? lenN (pushes (items K_P2SH_MS m ks rows ++ [ms_of m ks]))) with false by lia.
+    rewrite parse_pushes_pushes.
+    2:{ apply Forall_app. split; [eapply Forall_le_weaken; [|exact Hsm]; lia | repeat constructor; lia]. }
+    replace (all_le_520 (items K_P2SH_MS m ks rows ++ [ms_of m ks])) with true.
+    2:{ symmetry. apply all_le_520_forall. apply Forall_app. split; [eapply Forall_le_weaken; [|exact Hsm]; lia | repeat constructor; lia]. }
+    replace (1000 <? lenN (items K_P2SH_MS m ks rows ++ [ms_of m ks])) with false by (rewrite lenN_app; change (lenN [ms_of m ks]) with 1; lia).
+    rewrite andb_false_r. cbn [negb orb is_nil andb].
+    rewrite split_last_snoc, bytes_eqb_refl. cbn [andb]. apply HE.
+  - (* P2WSH *)
+    change (10000 <? lenN (@nil byte)) with false. cbv iota. rewrite parse_pushes_nil.
+    rewrite andb_false_r. cbn [negb orb all_le_520 forallb lenN length N.of_nat N.ltb N.compare expected_wit_script_sig pz_kind bytes_eqb andb].
+    unfold eval_witness_part. cbn [pz_kind pz_m pz_keys].
+    rewrite split_last_snoc, bytes_eqb_refl, Hsm520.
+    replace (lenN (ms_of m ks) <=? 10000) with true by lia. cbn [andb]. apply HE.
+  - (* P2SH-P2WSH *)
+    pose proof (wit0_sha_len (ms_of m ks)) as Hw.
+    pose proof (push_data_length (wit0_script (sha256 (ms_of m ks))) ltac:(lia)) as Hp.
+    assert (Hpp : pushes [wit0_script (sha256 (ms_of m ks))] = push_data (wit0_script (sha256 (ms_of m ks))))
+      by (unfold pushes; cbn [flat_map]; apply app_nil_r).
+    replace (10000 <? lenN (pushes [wit0_script (sha256 (ms_of m ks))])) with false by (rewrite Hpp; lia).
+    rewrite parse_pushes_pushes by (repeat constructor; lia).
+    replace (all_le_520 [wit0_script (sha256 (ms_of m ks))]) with true
+      by (symmetry; apply all_le_520_forall; repeat constructor; lia).
+    change (lenN [wit0_script (sha256 (ms_of m ks))]) with 1.
+    rewrite andb_false_r. cbn [negb orb N.ltb N.compare Pos.compare Pos.compare_cont expected_wit_script_sig pz_kind pz_m pz_keys].
+    rewrite Hpp, bytes_eqb_refl. cbn [andb].
+    unfold eval_witness_part. cbn [pz_kind pz_m pz_keys].
+    rewrite split_last_snoc, bytes_eqb_refl, Hsm520.
+    replace (lenN (ms_of m ks) <=? 10000) with true by lia. cbn [andb]. apply HE.
 Qed.
 End MsKinds.
